@@ -5,7 +5,7 @@
     (so it cannot contain a code of 6 or more digits), and the error of a validation does not
     depend on the HMAC function at all.  The secret side is covered by the correspondence's
     string scan and by the SSA flow check. *)
-From OtpV Require Import Prelude Sha Tables ErrTexts Errors Decoder Derive Otp Ocra DeriveProofs OtpProofs OcraProofs.
+From OtpV Require Import Prelude Sha Tables ErrTexts Errors Decoder Derive Otp Ocra DeriveProofs OtpProofs OcraProofs LeakProofs.
 Open Scope N_scope.
 
 Theorem C13_verdict_hotp : forall secret code c p,
@@ -88,3 +88,25 @@ Proof.
   destruct (bytes_eqb code c); intros H; inversion H; auto.
 Qed.
 Print Assumptions C13_ocra_post_hmac_errors.
+
+(** disclosure, structurally: no error of a generation or validation operation has any string
+    argument — it is a sentinel, a base32 offset (a position), or a fixed message with numbers
+    (lengths, enum values).  The secret (as text or as key bytes) and the expected code are
+    strings; they are not arguments of any error these operations return. *)
+Theorem C13_generation_errors_carry_no_text : forall secret c t p cfg i e,
+  (generate_hotp secret c p = Err e -> textless e) /\
+  (generate_totp secret t p = Err e -> textless e) /\
+  (generate_ocra secret cfg i = Err e -> textless e).
+Proof.
+  intros. repeat split; [apply generate_hotp_textless|apply generate_totp_textless|apply generate_ocra_textless].
+Qed.
+Print Assumptions C13_generation_errors_carry_no_text.
+
+Theorem C13_validation_errors_carry_no_text : forall secret code c t p cfg i e k,
+  (validate_hotp secret code c p = (Ok (false, Some e), k) -> textless e) /\
+  (validate_totp secret code t p = (Ok (false, Some e), k) -> textless e) /\
+  (validate_ocra secret code cfg i = (Ok (false, Some e), k) -> textless e).
+Proof.
+  intros. repeat split; [apply validate_hotp_textless|apply validate_totp_textless|apply validate_ocra_textless].
+Qed.
+Print Assumptions C13_validation_errors_carry_no_text.
